@@ -12,6 +12,8 @@ import (
 	"github.com/gorilla/websocket"
 	lime "github.com/takenet/lime-go"
 
+	"sync"
+	"sync/atomic"
 	"verif/harness/internal/core"
 	"verif/harness/internal/faultconn"
 	"verif/harness/internal/gen"
@@ -66,6 +68,15 @@ func (c01) Plan(tier string, seed uint64) []core.Case {
 	}
 	for i := 0; i < nmix; i++ {
 		cases = append(cases, core.Case{ID: fmt.Sprintf("C01/mixed/%03d", i), Engine: "envelopes", Seed: core.Derive(seed, 99, uint64(i)).Uint64(), P: map[string]interface{}{"kind": -1, "lo": i * 200, "n": 200, "ws": i%3 == 0}, TimeoutS: 300})
+	}
+	// many goroutines encoding and decoding their own envelopes at the same time (a server with several sessions):
+	// the codec must not share state between them
+	nconc := 2
+	if tier == "thorough" {
+		nconc = 16
+	}
+	for i := 0; i < nconc; i++ {
+		cases = append(cases, core.Case{ID: fmt.Sprintf("C01/concurrent/%02d", i), Engine: "concurrent", Seed: core.Derive(seed, 77, uint64(i)).Uint64(), P: map[string]interface{}{"goroutines": 16, "n": 400}, TimeoutS: 300})
 	}
 	for _, form := range []string{"identity", "node", "mediatype", "uri"} {
 		cases = append(cases, core.Case{ID: "C01/text/" + form, Engine: "textvalues", P: map[string]interface{}{"form": form, "len": tl}, TimeoutS: 600})
@@ -205,12 +216,65 @@ func (p c01) Run(c core.Case) core.Result {
 	switch c.Engine {
 	case "envelopes":
 		p.envelopes(&r, c)
+	case "concurrent":
+		p.concurrent(&r, c)
 	case "textvalues":
 		p.textValues(&r, c)
 	case "textstrings":
 		p.textStrings(&r, c)
 	}
 	return r
+}
+
+// concurrent: each goroutine round-trips its own envelopes through the typed codec while the others do the same.
+func (p c01) concurrent(r *core.Result, c core.Case) {
+	ng, n := c.Int("goroutines", 16), c.Int("n", 400)
+	type bad struct{ key, detail string }
+	var mu sync.Mutex
+	var bads []bad
+	var total int64
+	var wg sync.WaitGroup
+	start := make(chan struct{})
+	for gi := 0; gi < ng; gi++ {
+		wg.Add(1)
+		go func(gi int) {
+			defer wg.Done()
+			g := gen.New(core.Derive(c.Seed, uint64(gi)).Uint64())
+			<-start
+			for i := 0; i < n; i++ {
+				kind := g.R.Intn(gen.NKinds)
+				mask := g.R.Intn(1 << gen.MaskBits(kind))
+				v, path := g.Envelope(kind, mask)
+				tag := fmt.Sprintf("goroutine %d of %d, %s mask=%#x doc=%s", gi, ng, gen.KindNames[kind], mask, path)
+				b, err := json.Marshal(v)
+				var k, d string
+				if err != nil {
+					k, d = "C01/concurrent/marshal-error/"+gen.KindNames[kind], fmt.Sprintf("%s: json.Marshal failed while other goroutines encode: %v", tag, err)
+				} else if dec, err := c01typedDecode(gen.KindNames[kind], b); err != nil {
+					k, d = "C01/concurrent/typed-decode-error/"+gen.KindNames[kind], fmt.Sprintf("%s: the encoding produced while other goroutines encode is rejected: %v; encoding %s", tag, err, clip(b))
+				} else if ok, where := gen.Eq(v, dec); !ok {
+					k, d = "C01/concurrent/not-equal/"+gen.KindNames[kind], fmt.Sprintf("%s: round trip under concurrency differs at %s; encoding %s", tag, where, clip(b))
+				}
+				atomic.AddInt64(&total, 1)
+				if k != "" {
+					mu.Lock()
+					if len(bads) < 20 {
+						bads = append(bads, bad{k, d})
+					}
+					mu.Unlock()
+				}
+			}
+		}(gi)
+	}
+	close(start)
+	wg.Wait()
+	r.Evals += int(total)
+	r.Count("concurrent_roundtrips", int(total))
+	r.Count("envelopes", int(total))
+	for _, b := range bads {
+		r.Violate(b.key, b.detail)
+	}
+	r.Fingerprints = append(r.Fingerprints, fmt.Sprintf("concurrent|%d|%d|%d", ng, n, c.Seed%100000))
 }
 
 func (p c01) envelopes(r *core.Result, c core.Case) {
